@@ -15,6 +15,8 @@
 #undef protected
 #undef private
 #include <unistd.h>
+#include <cstring>
+#include <atomic>
 
 using namespace cocls;
 using tp_t = std::chrono::system_clock::time_point;
@@ -158,14 +160,14 @@ struct Manual {
 static std::mutex wd_mx;
 static std::condition_variable wd_cv;
 
-// runs fn on the calling thread; if it does not return within 2 s the observation `hang_code` is printed
+// runs fn on the calling thread; if it does not return within 1.5 s the observation `hang_code` is printed
 // and the process exits (the pipeline records the unterminated case)
 template <typename Fn>
 static void with_watchdog(long hang_code, Fn &&fn) {
     bool done = false;
     std::thread wd([&] {
         std::unique_lock lk(wd_mx);
-        if (!wd_cv.wait_for(lk, std::chrono::seconds(2), [&] { return done; })) {
+        if (!wd_cv.wait_for(lk, std::chrono::milliseconds(1500), [&] { return done; })) {
             std::printf("%ld\n", hang_code);
             std::fflush(stdout);
             _exit(78);
@@ -213,7 +215,7 @@ struct Interval {
             }
             case 3: {
                 long before = tick_status();
-                with_watchdog(-998, [&] { src.request_stop(); });
+                src.request_stop();
                 long after = tick_status();
                 if (after == 2) finished = true;
                 emit(after != before ? after : 0);
@@ -240,7 +242,7 @@ struct Interval {
     ~Interval() {
         // a generator still sleeping must be woken before it can be destroyed
         if (tick && !tick->ready()) {
-            src.request_stop();
+            with_watchdog(-998, [&] { src.request_stop(); });   // a self-deadlock here must not stall the whole run
             for (int i = 0; i < 4 && !tick->ready(); i++) {
                 scheduler::expired e = sch.get_expired(tp_t::max());
                 if (std::holds_alternative<scheduler::promise>(e)) std::get<scheduler::promise>(e)();
@@ -303,8 +305,55 @@ static void run_start(const vh::Case &cs) {
 // an empty heap when far = 0; then a sleep `near` ms ahead is scheduled from the test thread.
 // observation: status, did the near sleep become ready inside the watchdog window, final state of the far sleep
 // after cancel(far id) (0 = there was none)
+// op [2 far_ms]: stop request racing with the worker's decision to wait.  The worker thread is held at the
+// COCLS_VERIF_POINT("sched_wait") hook — it has looked at the heap under the lock, found nothing due and is about to call
+// wait_until — while another thread runs ~scheduler (request_stop + wait for the worker); then the worker is let go.
+// observation: status, did the destructor return inside the watchdog window, state of the far sleep (0 = none)
+static std::atomic<int> sd_armed{0}, sd_reached{0}, sd_release{0};
+static void sd_point(const char *id) {
+    if (std::strcmp(id, "sched_wait") != 0 || !sd_armed.load()) return;
+    sd_armed.store(0);
+    sd_reached.store(1);
+    while (!sd_release.load()) std::this_thread::sleep_for(std::chrono::milliseconds(1));
+}
+
+static void run_stop_race(const std::vector<long> &op) {
+    long returned = 0, far_state = 0;
+    int id_far = 0;
+    std::unique_ptr<future<void>> ffar;
+    std::thread thr;
+    auto *sch = new scheduler;
+    sd_reached.store(0); sd_release.store(0); sd_armed.store(0);
+    cocls::verif::get_hooks().point = &sd_point;
+    if (op[1] > 0)
+        ffar.reset(new future<void>(sch->sleep_until(std::chrono::system_clock::now() + std::chrono::milliseconds(op[1]), &id_far)));
+    sd_armed.store(1);
+    sch->start(thr);
+    for (int i = 0; i < 1500 && !sd_reached.load(); i++) std::this_thread::sleep_for(std::chrono::milliseconds(1));
+    std::atomic<int> done{0};
+    std::thread killer([&] { delete sch; done.store(1); });
+    std::this_thread::sleep_for(std::chrono::milliseconds(50));   // ~scheduler has requested the stop and waits
+    sd_release.store(1);
+    for (int i = 0; i < 1500 && !done.load(); i++) std::this_thread::sleep_for(std::chrono::milliseconds(1));
+    returned = done.load();
+    cocls::verif::get_hooks().point = nullptr;
+    if (!returned) {
+        vh::print_obs({0, 0, 0});
+        std::fflush(stdout);
+        _exit(78);            // the destructor never returns: nothing can be cleaned up
+    }
+    killer.join();
+    if (thr.joinable()) thr.join();
+    if (ffar) far_state = status_of(*ffar);
+    vh::print_obs({0, returned, far_state});
+}
+
 static void run_thread(const vh::Case &cs) {
     for (auto &op : cs.ops) {
+        if (op.size() == 2 && op[0] == 2 && (op[1] == 0 || (op[1] >= 10000 && op[1] <= 100000))) {
+            run_stop_race(op);
+            continue;
+        }
         if (op.size() != 3 || op[0] != 1 || op[1] < 0 || op[1] > 100000 || op[2] < 1 || op[2] > 200) {
             vh::print_obs({1});
             continue;
@@ -346,7 +395,9 @@ int main(int argc, char **argv) {
             for (auto &op : cs.ops) m.exec(op);
         } else if (cs.engine == "tiv") {
             Interval iv;
-            for (auto &op : cs.ops) iv.exec(op);
+            // every call runs under the watchdog: a stop callback that self-deadlocks may run inside request_stop(), inside
+            // the generator call (stop requested before the body starts: the callback runs in its constructor) or in ~Interval
+            for (auto &op : cs.ops) with_watchdog(-998, [&] { iv.exec(op); });
         } else if (cs.engine == "tst") {
             run_start(cs);
         } else if (cs.engine == "tth") {
